@@ -63,3 +63,31 @@ Print Assumptions structure_facts_hold.
 Theorem panic_sites_closed : forallb classified Gen.C09.sites = true.
 Proof. exact panic_sites_closed_proof. Qed.
 Print Assumptions panic_sites_closed.
+
+
+(* --- source translation tie (GenFn) --- *)
+(* The Go function bodies named below are re-translated from the source on every check
+   (harness/cmd/extract/gotrans*.go -> GenFn/*.v, semantics of the Go subset: Trans/GoSem.v).
+   Each theorem states that the hand-written model function equals the translated body for all
+   inputs (hypotheses are Go type ranges / the 256-bit range of math.Int only); the proofs are in
+   Trans/C09Fn.v.  A readable change of the Go body breaks the proof, an unreadable one breaks the
+   translator.  See design/GoTrans.md. *)
+From Paloma Require Trans.GoSem Trans.GoSemFacts Trans.C09Fn.
+
+Theorem mul_ceil_u64_model_is_translation_of_source :
+  forall d n : Z, 0 <= n ->
+  GenFn.MulCeilUint64.mulCeilUint64 (Some d) n = Trans.C09Fn.of_result (EndBlock.mul_ceil_u64 d n).
+Proof. exact Trans.C09Fn.mul_ceil_eq. Qed.
+Print Assumptions mul_ceil_u64_model_is_translation_of_source.
+
+Theorem mul_ceil_u64_source_never_panics :
+  forall (d : option Z) (n : Z), 0 <= n ->
+  GenFn.MulCeilUint64.mulCeilUint64 d n <> GoSem.Panic.
+Proof. exact Trans.C09Fn.mul_ceil_never_panics. Qed.
+Print Assumptions mul_ceil_u64_source_never_panics.
+
+Theorem valid_mult_model_is_translation_of_source :
+  forall m : option Z,
+  GenFn.ValidateMultiplicator.validateMultiplicator m = if EndBlock.valid_mult m then GoSem.Val tt else GoSem.Fail.
+Proof. exact Trans.C09Fn.valid_mult_eq. Qed.
+Print Assumptions valid_mult_model_is_translation_of_source.
